@@ -153,6 +153,11 @@ def lon_specs(tier):
     # more than ten arrays: files 0.npy .. 11.npy must come back in numeric, not lexical, order
     out.append([{'dtype': 'float64', 'shape': [300, 300], 'fill': 'ramp', 'layout': 'C'}, {'dtype': 'uint8', 'shape': [100000], 'fill': 'ramp', 'layout': 'C'}])
     out.append([{'dtype': 'int64', 'shape': [1], 'fill': 'ramp', 'layout': 'C'} if i % 2 else {'dtype': 'float32', 'shape': [i], 'fill': 'ramp', 'layout': 'C'} for i in range(12)])
+    # arrays of ONE dtype whose flattened bytes coincide but whose shapes differ (every empty array has the same, empty, bytes), and truly repeated arrays
+    for dt in ('float64', 'int16', '<U1', 'bool'):
+        for fill in ('zeros', 'ramp'):
+            for shapes in ([[0, 4], [0]], [[3], [1, 3], [3, 1]], [[2, 3], [3, 2], [6]], [[], [1], [1, 1]], [[3], [3]]):
+                out.append([{'dtype': dt, 'shape': sh, 'fill': fill, 'layout': 'C'} for sh in shapes])
     # one more decimal digit in the index than any fixed-width file name is likely to allow for: 10001 arrays, neighbours differ in shape
     out.append([{'dtype': 'int16', 'shape': [i % 3 + 1], 'fill': 'ramp', 'layout': 'C'} for i in range(10001)])
     return out
@@ -257,6 +262,12 @@ class {name}(Task):
     _CLASSES['Lon'] = mk('Lon', 'list', '        return [B.build_array(s) for s in v]', 'data_class = ListOfNumpyData')
     _CLASSES['Pd'] = mk('Pd', 'pd.DataFrame', '        return B.build_frame(v)')
     _CLASSES['Ps'] = mk('Ps', 'pd.Series', '        return B.build_frame(v)')
+    # the value is NOT a parameter: one storage location whose run returns what the harness holds at the moment (a recomputation may return something else)
+    _CLASSES['JlistHold'] = mk('JlistHold', 'list', '        return copy.deepcopy(B.HOLD[0])')
+    _CLASSES['NpHold'] = mk('NpHold', 'np.ndarray', '        return B.build_array(B.HOLD[0])')
+    _CLASSES['LonHold'] = mk('LonHold', 'list', '        return [B.build_array(x) for x in B.HOLD[0]]', 'data_class = ListOfNumpyData')
+    _CLASSES['PdHold'] = mk('PdHold', 'pd.DataFrame', '        return B.build_frame(B.HOLD[0])')
+    _CLASSES['GenHold'] = mk('GenHold', 'Generator', '        yield from copy.deepcopy(B.HOLD[0])')
     _CLASSES['Dir'] = mk('Dir', 'DirData', '''        d = self.get_data_object()
         for rel, content in v['files'].items():
             p = d.dir / rel
@@ -266,6 +277,87 @@ class {name}(Task):
             (d.dir / rel).mkdir(parents=True)
         return d''')
     return _CLASSES
+
+
+HOLD = [None]
+
+
+def rewrite_groups():
+    """groups of values that compare EQUAL under Python's / numpy's `==` (or coincide in bytes) without being the same value, and values of
+    very different stored length: every ordered pair (first, second) of a group is stored first / recomputed second at ONE storage location"""
+    J = [[[1], [1.0], [True]], [[0], [0.0], [False], [-0.0]], [[{'k': 1}], [{'k': 1.0}], [{'k': True}]], [[[1, 2, 3]], [[1.0, 2.0, 3.0]]],
+         [[{'a': [0], 'b': 'x'}], [{'a': [False], 'b': 'x'}]], [['y' * 200], ['y']], [[list(range(60))], [[]], [[0]]], [[1, 'a'], [1.0, 'a']], [[2 ** 53], [float(2 ** 53)]]]
+
+    def a(dt, sh, fill='ramp'):
+        return {'dtype': dt, 'shape': sh, 'fill': fill, 'layout': 'C'}
+    NP = [[a('int64', [3]), a('float64', [3]), a('int8', [3])], [a('float64', [3]), a('float64', [1, 3]), a('float64', [3, 1])], [a('bool', [2], 'zeros'), a('int8', [2], 'zeros'), a('float32', [2], 'zeros')],
+          [a('int32', [6]), a('int32', [2, 3]), a('int32', [1])], [a('<U1', [2]), a('<U4', [2])]]
+    LON = [[[x] for x in g] for g in NP[:2]] + [[[a('int64', [2]), a('int64', [2])], [a('int64', [2])], []]]
+
+    def f(dt, idx='range', rows=3):
+        return {'kind': 'frame', 'index': idx, 'cols': 'str', 'dtype': dt, 'rows': rows}
+    PD = [[f('int'), f('float'), f('bool')], [f('int'), f('int', rows=1), f('int', 'int')]]
+    GEN = [[[1, 2], [1.0, 2.0], [True, 2]], [[{'k': 0}], [{'k': False}]], [list(range(40)), [0]]]
+    return {'JlistHold': J, 'NpHold': NP, 'LonHold': LON, 'PdHold': PD, 'GenHold': GEN}
+
+
+def check_rewrite(cname, idx, v1, v2, base):
+    """v1 is computed and stored; the task is forced and its run now returns v2: the recomputing chain returns v2 and every later chain
+    loads v2 - exactly, not something that merely compares equal to it"""
+    from taskchain import Config
+
+    cls = classes()[cname]
+    name = cls.slugname
+    kind = {'JlistHold': 'Jlist', 'NpHold': 'Np', 'LonHold': 'Lon', 'PdHold': 'Pd', 'GenHold': 'Gen'}[cname]
+
+    def chain():
+        return Config(base, name='c', data={'tasks': [cls], 'idx': idx, 'v': None}).chain()
+    out = []
+    try:
+        HOLD[0] = v1
+        first = materialise(kind, chain()[name].value)
+        r = same(expected(kind, v1), first)
+        if r:
+            out.append(('computing chain returns something else than run returned', r))
+        HOLD[0] = v2
+        t = chain()[name]
+        t.force()
+        second = materialise(kind, t.value)
+        r = same(expected(kind, v2), second)
+        if r:
+            out.append(('recomputing chain returns something else than run returned', r))
+        HOLD[0] = 'must not run again'
+        loaded = materialise(kind, chain()[name].value)
+        r = same(expected(kind, v2), loaded)
+        if r:
+            out.append(('after a recomputation a later chain loads something else than run returned', r))
+    except Exception as e:  # noqa
+        out.append(('store / recompute / load of values of the storable domain failed', f'{type(e).__name__}: {str(e)[:200]}'))
+    finally:
+        HOLD[0] = None
+    return out
+
+
+def _rewrite_job(args):
+    import tcv
+
+    tcv.quiet_library()
+    cname, groups = args
+    res = Result()
+    base = Path(scratch.fresh('c06r'))
+    try:
+        idx = 0
+        for g in groups:
+            for v1, v2 in itertools.permutations(g, 2):
+                idx += 1
+                res.add('evaluations')
+                res.add('transitions', 3)
+                res.add('rewrite_pairs')
+                for kind, msg in check_rewrite(cname, f'{cname}{idx}', v1, v2, base):
+                    res.violations.append(Violation(f'{cname}: {kind}', f'stored first {v1!r}, recomputed {v2!r}: {msg}', {'rewrite': cname}))
+    finally:
+        scratch.drop(str(base))
+    return res
 
 
 def class_for_json(v):
@@ -441,6 +533,8 @@ def run(tier, seed):
     res = Result()
     for r in pmap(_job, jobs):
         res.merge(r)
+    for r in pmap(_rewrite_job, list(rewrite_groups().items())):
+        res.merge(r)
     res.coverage['domain_sizes'] = sizes
     res.coverage['states'] = sum(sizes.values())
     res.coverage['distinct_nontrivial'] = sum(sizes.values())
@@ -459,6 +553,8 @@ def replay(case):
     import tcv
 
     tcv.quiet_library()
+    if 'rewrite' in case:
+        return _rewrite_job((case['rewrite'], rewrite_groups()[case['rewrite']])).violations
     base = Path(scratch.fresh('c06r'))
     try:
         return [Violation(f'{case["cname"]}: {k}', m, case) for k, m in check_value(case['cname'], case['idx'], case['v'], base)]
